@@ -18,8 +18,8 @@ from sa.report import where
 OBJECTIVES = {
     'torchtree.variational.kl.ELBO': [['S'], ['S', 'K']],
     'torchtree.variational.kl.KLpq': [['S']],
-    'torchtree.variational.renyi.VR': [['S']],
-    'torchtree.variational.chi.CUBO': [['S']],
+    'torchtree.variational.renyi.VR': [['S'], ['S', 'K']],
+    'torchtree.variational.chi.CUBO': [['S'], ['S', 'K']],
 }
 REPORTED_ONLY = {
     'torchtree.variational.kl.SELBO': "mixture of components: a draw per component by design; exact only as a weighted sum",
@@ -453,6 +453,52 @@ def check_dependencies(ctx, rep):
         rep.undecided('C14.J', 'check_callers', '', str(u))
 
 
+def check_joint(ctx, rep):
+    """C14.C — the joint density / entropy the objectives are built from: every callable component is kept and summed, entropies are totals"""
+    cls = ctx.classes.get('torchtree.distributions.joint_distribution.JointDistributionModel')
+    if cls is None:
+        raise AnalysisError('JointDistributionModel not found')
+    m = cls.module
+    init, lp, ent = (cls.resolve(n)[1] for n in ('__init__', 'log_prob', 'entropy'))
+    # every component handed to the constructor is kept (transformed parameters contribute their log-Jacobian as callables, not as models)
+    arg = init.args.args[2].arg if len(init.args.args) > 2 else None
+    stores = [st for st in ast.walk(init) if isinstance(st, ast.Assign) and any(self_attr(t) == '_distributions' for t in st.targets)]
+    kept = len(stores) == 1 and isinstance(stores[0].value, ast.Call) and len(stores[0].value.args) >= 2 and isinstance(stores[0].value.args[1], ast.Name) \
+        and stores[0].value.args[1].id == arg
+    filtered = [norm_text(c)[:50] for c in ast.walk(init) if isinstance(c, ast.Call) and isinstance(c.func, ast.Attribute) and c.func.attr in ('models', 'parameters')]
+    verdict = True if kept and not filtered else (False if filtered else None)
+    key = 'JointDistributionModel.__init__::every-component-is-kept'
+    if verdict is None:
+        rep.undecided('C14.C', key, where(m, init), 'construction of the component container not recognised')
+    else:
+        rep.check('C14.C', key, verdict, where(m, init), {'filters': filtered},
+                  f"JointDistributionModel.__init__ rebuilds its components through {filtered}: callables that are not models (the log-Jacobian of a TransformedParameter) are "
+                  f"dropped, so a joint of joints loses the Jacobian terms of the inner one")
+    iters = [n for n in ast.walk(lp) if isinstance(n, ast.For)]
+    over = [norm_text(n.iter) for n in iters]
+    rep.check('C14.C', 'JointDistributionModel.log_prob::sums-every-callable-component', any(t.endswith('.callables()') for t in over), where(m, lp), {'iterates': over},
+              "the joint log density must add every callable component (models and transformed parameters), i.e. iterate self._distributions.callables()")
+    # entropy: total over components; a component's entropy is reduced to one number before / while it is added
+    adds = []
+    for n in ast.walk(ent):
+        if isinstance(n, ast.BinOp) and isinstance(n.op, ast.Add):
+            for side in (n.left, n.right):
+                if isinstance(side, ast.Call) and isinstance(side.func, ast.Attribute) and side.func.attr == 'entropy':
+                    adds.append(norm_text(n)[:60])
+        if isinstance(n, ast.AugAssign) and isinstance(n.op, ast.Add) and isinstance(n.value, ast.Call) and isinstance(n.value.func, ast.Attribute) and n.value.func.attr == 'entropy':
+            adds.append(norm_text(n)[:60])
+    rets = [r for r in ast.walk(ent) if isinstance(r, ast.Return) and r.value is not None]
+    total = len(rets) == 1 and isinstance(rets[0].value, ast.Call) and isinstance(rets[0].value.func, ast.Attribute) and rets[0].value.func.attr == 'sum' and not rets[0].value.args
+    verdict = False if adds else (True if total else None)
+    key = 'JointDistributionModel.entropy::total-of-the-component-entropies'
+    if verdict is None:
+        rep.undecided('C14.C', key, where(m, ent), 'form of the joint entropy not recognised')
+    else:
+        rep.check('C14.C', key, verdict, where(m, ent), {'elementwise_additions': adds},
+                  f"JointDistributionModel.entropy adds component entropies element-wise ({adds[:1]}): blocks of different batch shape broadcast, and the objective's "
+                  f"own `.sum()` then counts the smaller block once per element of the larger one")
+
+
 def run(ctx, rep):
     rep.rule('C14.J', "the Jacobian term a transformed parameter contributes is that of its current value (C07.C rules): models expressed through constraining transforms")
     rep.explanation = (
@@ -463,11 +509,20 @@ def run(ctx, rep):
         "draw lies between two evaluations; the sample size is kwargs.get('samples', self.samples)."
     )
     rep.rule('C14.T', "with log p − log q ≡ c for every draw the objective evaluates to exactly c (sign, −log K normaliser, reduced axis, 1/(1−α), 1/n, max shift)")
+    rep.rule('C14.C', "the joint the objectives are built from keeps and sums every callable component; the joint entropy is the total of the component entropies")
+    rep.rule('C14.O', "JSON options of the objectives (entropy, score, …) land on the constructor parameter of the same name")
     rep.rule('C14.S', "each evaluation request draws fresh samples first and evaluates p() and q() at that same draw")
     rep.assumptions += ["Distribution.rsample/sample write the draw into the shared parameters and fire change events (C11.W)",
                         "at the true posterior log p(z,x) − log q(z) is the same constant for every z"]
-    rep.not_decided += ["sample shape [S,K] for VR, CUBO, KLpq (runtime broadcasting)", "entropy and score variants (exact only in expectation / surrogate)",
+    rep.not_decided += ["sample shape [S,K] for KLpq (raises for S != K)", "entropy and score variants (exact only in expectation / surrogate)",
                         "conjugate models numerically", "Jacobian bookkeeping of transformed models (C19.J)"]
     check_tightness(ctx, rep)
     check_sampling_order(ctx, rep)
     check_dependencies(ctx, rep)
+    try:
+        check_joint(ctx, rep)
+    except Unsupported as u:
+        rep.undecided('C14.C', 'check_joint', '', str(u))
+    # options of the objectives reach the constructor parameter of their own name
+    from props import c09
+    c09.check_positional_options(ctx, rep, rule='C14.O', only=lambda ci: ci.module.name.startswith('torchtree.variational'))
